@@ -89,6 +89,17 @@ pub fn other_frame(rng: &mut Rng) -> F {
         1 => { p.extend(stop_all_bytes()); p.extend(stop_all_bytes()); p.push(7); }
         2 => { let n = [1usize, 2, 5, 25, 1024][rng.below(5) as usize]; for _ in 0..n { p.push(rng.byte()); } }
         3 => { p.extend(b"LXR"); p.push(3); p.push(0x20); p.extend([0, 1, 0, 0, 0, 1]); }   // embedded resume-all
+        // a payload whose length is a whole number of blocks of a round size, with a complete resume-all frame
+        // sitting exactly one block before its end (whatever is skipped block-wise must skip all of it)
+        4 => { let c = *rng.pick(&[10usize, 16, 20, 32, 50, 64, 100, 100, 100, 128, 200, 250, 256, 500, 512]);
+               let m = 1 + rng.below((1024 / c) as u64) as usize; let l = c * m;
+               for _ in 0..l { p.push(if rng.chance(1, 2) { 0 } else { rng.byte() }); }
+               let fr: [u8; 11] = [b'L', b'X', b'R', 3, 0x20, 0, 1, 0, 0, 0, 1];
+               if l >= 11 { let at = l - c.max(11); p[at..at + 11].copy_from_slice(&fr); }
+               // ... as an unknown type or as an ill-sized engine / target / control frame
+               let t2 = *rng.pick(&[t, t, 0x43, 0x44, 0x45]);
+               let bad_size = match t2 { 0x43 => l != 5, 0x44 => l != 25, 0x45 => l != 2, _ => true };
+               if bad_size { return (t2, p); } }
         _ => { let n = 1 + rng.below(40); for _ in 0..n { p.push(rng.byte()); } }
     }
     (t, p)
